@@ -68,6 +68,12 @@ func (t *tunnel) Read(buf []byte) (int, error) {
 	if err := t.tr.call(t.ctx, msgRead, req, resp); err != nil {
 		return 0, err
 	}
+	if len(resp.bytes) > len(buf) {
+		return 0, fmt.Errorf(
+			"read reply of %d bytes exceeds the %d requested",
+			len(resp.bytes), len(buf),
+		)
+	}
 	return len(resp.bytes), resp.err.toError()
 }
 
